@@ -157,6 +157,18 @@ func c09Tab(thorough bool) *c09Table {
 				m[j/8] ^= 1 << (j % 8)
 				return c09Case{"bin", m, "flip " + note}
 			})
+			// the complete transaction followed by surplus bytes
+			t.add(4, func(j uint64) c09Case {
+				extra := [][]byte{{0x00}, {0xff}, {0x01, 0x00, 0x00, 0x00}, b}[j]
+				return c09Case{"bin", append(append([]byte(nil), b...), extra...), "surplus " + note}
+			})
+			// every byte replaced by every value
+			t.add(len(b)*255, func(j uint64) c09Case {
+				m := append([]byte(nil), b...)
+				pos, d := j/255, byte(j%255)+1
+				m[pos] ^= d
+				return c09Case{"bin", m, "byte " + note}
+			})
 			// length-field claims: keep tail / cut after field / keep only 1 more byte
 			nf := len(offs) * len(c09Claims) * 3
 			t.add(nf, func(j uint64) c09Case {
@@ -290,8 +302,21 @@ func c09Check(c c09Case) (fs []rep.Finding) {
 		}
 	}
 	if c.Kind == "bin" {
-		call("NewTxFromBytes", func() (int64, bool) { _, _ = bt.NewTxFromBytes(data); return 0, false })
-		call("NewTxFromStream", func() (int64, bool) { _, u, _ := bt.NewTxFromStream(data); return int64(u), true })
+		neither := func(name string, tx *bt.Tx, err error) {
+			if tx == nil && err == nil {
+				fs = append(fs, rep.F("neither-value-nor-error|"+name, "the decoder returned a nil transaction and a nil error"))
+			}
+		}
+		call("NewTxFromBytes", func() (int64, bool) {
+			t, err := bt.NewTxFromBytes(data)
+			neither("NewTxFromBytes", t, err)
+			return 0, false
+		})
+		call("NewTxFromStream", func() (int64, bool) {
+			t, u, err := bt.NewTxFromStream(data)
+			neither("NewTxFromStream", t, err)
+			return int64(u), true
+		})
 		call("Tx.ReadFrom", func() (int64, bool) { var t bt.Tx; n, _ := t.ReadFrom(bytes.NewReader(data)); return n, true })
 		call("Tx.ReadFrom/1byte", func() (int64, bool) {
 			var t bt.Tx
@@ -309,7 +334,11 @@ func c09Check(c c09Case) (fs []rep.Finding) {
 		call("VarInt.ReadFrom", func() (int64, bool) { var v bt.VarInt; n, _ := v.ReadFrom(bytes.NewReader(data)); return n, true })
 		hx := hex.EncodeToString(data)
 		budget = uint64(64*len(hx)) + 256<<10
-		call("NewTxFromString", func() (int64, bool) { _, _ = bt.NewTxFromString(hx); return 0, false })
+		call("NewTxFromString", func() (int64, bool) {
+			t, err := bt.NewTxFromString(hx)
+			neither("NewTxFromString", t, err)
+			return 0, false
+		})
 		return
 	}
 	// JSON
@@ -329,7 +358,8 @@ func c09Check(c c09Case) (fs []rep.Finding) {
 func c09JSONDocs(thorough bool) (docs []string) {
 	validTx := hex.EncodeToString((&txRecipe{V: 1, NIn: 1, NOut: 1, SLen: 2, PrevLen: 3, Sats: 5, OLen: 2, Seq: 1}).build().Bytes(false))
 	hugeTx := "01000000" + "01" + hex.EncodeToString(txid32(1)) + "00000000" + "ff0000000001000000" // script length 2^32
-	hexV := []string{"", `"hex":"` + validTx + `"`, `"hex":""`, `"hex":"zz"`, `"hex":"abc"`, `"hex":5`, `"hex":null`, `"hex":"` + hugeTx + `"`}
+	hexV := []string{"", `"hex":"` + validTx + `"`, `"hex":""`, `"hex":"zz"`, `"hex":"abc"`, `"hex":5`, `"hex":null`, `"hex":"` + hugeTx + `"`,
+		`"hex":"` + validTx + `00"`, `"hex":"` + validTx + validTx + `"`, `"hex":"` + validTx[:len(validTx)-2] + `"`}
 	u32V := []string{"", `1`, `-1`, `"x"`, `4294967296`, `null`, `1.5`}
 	txidV := []string{"", `"txid":"` + hex.EncodeToString(txid32(3)) + `"`, `"txid":"abcd"`, `"txid":"zz"`, `"txid":7`, `"txid":null`}
 	scriptSigV := []string{"", `"scriptSig":null`, `"scriptSig":{}`, `"scriptSig":{"hex":"51"}`, `"scriptSig":{"hex":"5"}`, `"scriptSig":{"hex":7}`, `"scriptSig":"51"`, `"unlockingScript":"51"`, `"unlockingScript":"5x"`}
@@ -416,7 +446,7 @@ func c09JSONDocs(thorough bool) (docs []string) {
 
 func init() {
 	p := register(&Prop{ID: "C09", Level: "fault_enumeration",
-		Rule: "exhaustive fault-style enumeration in single-threaded child processes (address-space limit, per-case progress marker, death/hang attribution): for each of ~22 (quick) / 26 (thorough) reference serialisations (standard and extended): every truncation length, every single-bit flip, every length/count field replaced by each of {0xfc,253,65535,65536,2^24,2^31,2^32-1,2^32,2^40,2^63,2^64-1} with the tail kept/cut/one byte, tx-list counts with those claims, every short wide-varint prefix; all strings of length<=5/7 over {00,01,02,EF,FD,FE,FF} bare, after a version and after the extended marker; a product of JSON documents (absent/null/valid/wrong-type/bad-hex per field incl. vin[i].scriptSig, vout[i].scriptPubKey, null elements, lists, fee quotes); each through every binary (10) or JSON (10) decoding entry point. Oracle per call: no panic, no process death, bytes-consumed <= bytes supplied, TotalAlloc delta <= 64*len+256KiB. distinct_nontrivial = distinct (family, decoder-outcome vector) classes",
+		Rule: "exhaustive fault-style enumeration in single-threaded child processes (address-space limit, per-case progress marker, death/hang attribution): for each of ~22 (quick) / 26 (thorough) reference serialisations (standard and extended): every truncation length, the whole serialisation followed by surplus bytes, every single-bit flip, every byte replaced by every other value, every length/count field replaced by each of {0xfc,253,65535,65536,2^24,2^31,2^32-1,2^32,2^40,2^63,2^64-1} with the tail kept/cut/one byte, tx-list counts with those claims, every short wide-varint prefix; all strings of length<=5/7 over {00,01,02,EF,FD,FE,FF} bare, after a version and after the extended marker; a product of JSON documents (absent/null/valid/wrong-type/bad-hex per field incl. vin[i].scriptSig, vout[i].scriptPubKey, null elements, lists, fee quotes); each through every binary (10) or JSON (10) decoding entry point. Oracle per call: no panic, no process death, a value or an error (never neither), bytes-consumed <= bytes supplied, TotalAlloc delta <= 64*len+256KiB. distinct_nontrivial = distinct (family, decoder-outcome vector) classes",
 	})
 	check := func(th bool, i uint64) []rep.Finding { return c09Check(c09Tab(th).at(i)) }
 	worker.Register(&worker.Space{
